@@ -5,6 +5,7 @@ Helper lemmas: ProofsMap / ProofsQueue / ProofsSet / ProofsRW / ProofsCache.
 import GoZero.C16.ProofsSet
 import GoZero.C16.ProofsRW
 import GoZero.C16.ProofsCache2
+import GoZero.C16.ProofsCache3
 namespace GoZero.C16
 
 /-! ## Queue behaves as a FIFO -/
@@ -221,7 +222,7 @@ theorem cache_evicts_lru_order {T : Type} (ts : TStep T) (c : CacheG T) (h : c.I
   have h3 := (lruAdd_after_insert ts c k v h).2.2
   unfold CacheG.set
   dsimp only
-  rcases h3 with ⟨e, _⟩ | ⟨old, e1, _, e3, e4, e5, e6⟩
+  rcases h3 with ⟨e, _⟩ | ⟨old, e1, _, e3, e4, e5, e6, _⟩
   · exact Or.inl e
   · exact Or.inr ⟨old, e1, e3, e4, e5, e6⟩
 
@@ -274,6 +275,29 @@ theorem cache_get_after_set (c : Spec.ACache) (h : c.Inv) (k v t : Nat) :
   have := cache_get_latest_unless_gone C12.Spec.step c h k v t [] (by rw [set_expires_later]; simp)
     (by simp) (by simp [CacheG.run])
   simpa [CacheG.after] using this
+
+/-- **One pending timer per cached entry, no timer without an entry** (abstract cache, any history): the keys
+of the timer table are exactly the keys of the map, each once.  So no entry can outlive its expiry for lack of
+a timer, and no stale timer (of an evicted, deleted or expired entry) can delete a later entry of the same key. -/
+theorem cache_timer_per_entry (limit : Nat) (ops : List COp) :
+    let c := CacheG.after C12.Spec.step (Spec.ACache.new limit) ops
+    (C12.Spec.keys c.timers).Nodup ∧ ∀ k, k ∈ C12.Spec.keys c.timers ↔ k ∈ akeys c.data := by
+  intro c
+  have h := tinv_after ops (Spec.ACache.new limit) (cache_new_inv limit [])
+    ⟨by simp [Spec.ACache.new, C12.Spec.KeysNodup, C12.Spec.keys], by simp [Spec.ACache.new, C12.Spec.keys, akeys]⟩
+  exact ⟨h.nodup, h.same⟩
+
+/-- **A tick expires exactly the entries whose timer is due** (one tick left), and they leave the cache. With
+`C12`'s `pending_fires_exactly_at_due` for the table (a timer set with `s ≥ 1` is due at the `s`-th following
+tick unless set again or removed) this is "has expired" in the property's sense. -/
+theorem cache_tick_expires_due (limit : Nat) (ops : List COp) (k : Nat) :
+    let c := CacheG.after C12.Spec.step (Spec.ACache.new limit) ops
+    (k ∈ (CacheG.tick C12.Spec.step c).2.expired ↔ ∃ v, (⟨k, v, 1⟩ : C12.Spec.Timer) ∈ c.timers)
+    ∧ (k ∈ (CacheG.tick C12.Spec.step c).2.expired → alookup (CacheG.tick C12.Spec.step c).1.data k = none) := by
+  intro c
+  have h := tinv_after ops (Spec.ACache.new limit) (cache_new_inv limit [])
+    ⟨by simp [Spec.ACache.new, C12.Spec.KeysNodup, C12.Spec.keys], by simp [Spec.ACache.new, C12.Spec.keys, akeys]⟩
+  exact tick_expires_due c h k
 
 /-- limit 2: keys 1, 2 set, 1 read (moves to front), 3 set → 2 is evicted, 1 and 3 stay; expiry after 3 ticks -/
 example : (CacheG.run C12.step (Cache.new 2 300) [.set 1 10 3, .set 2 20 3, .get 1, .set 3 30 5, .get 2, .get 1, .tick, .tick, .tick, .get 1, .get 3]).map
